@@ -525,6 +525,14 @@ func Event(format string, args ...any) {
 	raceEnable()
 }
 
+// Tracing reports whether the event log is being kept (debug output may then be richer).
+//
+//go:norace
+func Tracing() bool {
+	s := cur.Load()
+	return s != nil && s.cfg.KeepTrace
+}
+
 // Fault counts a fault that actually fired.
 //
 //go:norace
